@@ -9,7 +9,7 @@ use crate::views::*;
 use sliding_features::View;
 
 #[derive(Clone, Copy, Debug, PartialEq)]
-pub enum Shape { Free, Constant, Increasing, Alternating }
+pub enum Shape { Free, Constant, Increasing, Alternating, Decreasing }
 /// every unary wrapper at exactly window length n (no raising to the "meaningful" minimum: the constructor accepts it)
 pub fn raw_wrappers(n: usize) -> Vec<VK> {
     vec![VK::Gte(0.25), VK::Lte(0.25), VK::Tanh, VK::Drawdown, VK::LnReturn, VK::WelfordRolling,
@@ -26,6 +26,7 @@ fn stream<T: Dom>(shape: Shape, k: usize, positive: bool) -> Vec<T> {
         Shape::Free => (0..k).map(|t| pos(T::input(&format!("{p}x{t}")))).collect(),
         Shape::Constant => { let c = pos(T::input(&format!("{p}c"))); vec![c; k] }
         Shape::Alternating => { let (a, b) = (pos(T::input(&format!("{p}a"))), pos(T::input(&format!("{p}b")))); (0..k).map(|t| if t % 2 == 0 { a } else { b }).collect() }
+        Shape::Decreasing => { let mut x = pos(T::input(&format!("{p}x0"))); let mut v = vec![x]; for t in 1..k { let d = T::input(&format!("posd{t}")); T::assume(lt(T::zero(), d)); x = if positive { x / (T::one() + d) } else { x - d }; v.push(x); } v }
         Shape::Increasing => { let mut x = pos(T::input(&format!("{p}x0"))); let mut v = vec![x]; for t in 1..k { let d = T::input(&format!("posd{t}")); T::assume(lt(T::zero(), d)); x = x + d; v.push(x); } v }
     }
 }
@@ -79,7 +80,7 @@ pub fn units(tier: Tier, seed: u64) -> Vec<Unit> {
             let k = if matches!(vk, VK::NET(_)) && n > 16 { wl + 2 } else { (2 * wl + 3).min(wl + 40) };
             // large windows: one comparison path per (shape, sample): decisions are taken on a pseudo-random sample of the
             // shape's symbolic parameters (concolic), so no comparison tree has to be solved; a panic on that path is a violation
-            for shape in [Shape::Constant, Shape::Increasing, Shape::Alternating, Shape::Free] {
+            for shape in [Shape::Constant, Shape::Increasing, Shape::Decreasing, Shape::Alternating, Shape::Free] {
                 for s in 0..(if q { 1u64 } else { 3u64 }) {
                     let pattern: Vec<usize> = (0..3).map(|_| rng.below(3)).collect();
                     let mut c = unit!(format!("C15/{}/{shape:?}/sample-path#{s}/k={k}", vk.name()), no_panic(vk.clone(), None, k, shape, pattern.clone()));
@@ -95,9 +96,22 @@ pub fn units(tier: Tier, seed: u64) -> Vec<Unit> {
             if vk.is_leaf() || matches!(vk, VK::Gte(_) | VK::Lte(_) | VK::Tanh | VK::Drawdown | VK::LnReturn | VK::WelfordRolling | VK::LaguerreFilter(_)) { continue; }
             let wl = match &vk { VK::Roofing(a, b) => a + b + 1, _ => n };
             let k = if matches!(vk, VK::NET(_)) && n > 16 { wl + 2 } else { (2 * wl + 3).min(wl + 24) };
-            for shape in [Shape::Free, Shape::Increasing] {
+            for shape in [Shape::Free, Shape::Increasing, Shape::Decreasing] {
                 let mut c = unit!(format!("C15/{}/{shape:?}/sample-path/k={k}", vk.name()), no_panic(vk.clone(), None, k, shape, vec![1usize, 0, 2]));
                 c.concolic = Some(seed * 7 + 5);
+                u.push(c);
+            }
+        }
+    }
+    // more than two thousand updates at the smallest windows, strictly increasing and strictly decreasing (the value leaving the window
+    // is its extreme at every step; counters that are rebased or wrap every 2^k updates are crossed up to 2048)
+    for &n in &[1usize, 3] {
+        for vk in raw_wrappers(n) {
+            if vk.is_leaf() || matches!(vk, VK::TrendFlex(_) | VK::ReFlex(_) | VK::LaguerreRSI(_) | VK::NET(_) | VK::EFT(..) | VK::WelfordRolling | VK::WelfordOnline(_) | VK::Vst(_) | VK::Vsct(_) | VK::CTI(_) | VK::PFE(..)) { continue; }
+            if n == 3 && !matches!(vk, VK::Min(_) | VK::Max(_) | VK::Sma(_) | VK::Cumulative(_) | VK::Roc(_) | VK::BinaryEntropy(_) | VK::Alma(_) | VK::Ema(_)) { continue; }
+            for shape in [Shape::Increasing, Shape::Decreasing] {
+                let mut c = unit!(format!("C15/{}/{shape:?}/sample-path/k=2100", vk.name()), no_panic(vk.clone(), None, 2100usize, shape, vec![0usize, 0, 1]));
+                c.concolic = Some(seed * 7 + 9);
                 u.push(c);
             }
         }
@@ -120,7 +134,7 @@ pub fn units(tier: Tier, seed: u64) -> Vec<Unit> {
 pub fn meta() -> Meta {
     Meta {
         functions: vec!["every view of the crate ::{new,update,last} at exactly the requested window length (PFE and EFT with identity and Ema averages, Roofing(N,N) and (N,1)), seeded two-level chains, the four combinators"],
-        bounds: "fully symbolic inputs, all comparison outcomes: N in {1,2,3} (quick) / {1..5} (thorough), k = 2N+3 (<= 7 for heavily branching views); N in {8,64} (quick) / {8,16,32,64}, and free / increasing streams at every N in {4,5,6,7,9,10,12,16,17,31,32,33} (quick; thorough up to 128): streams that are constant, strictly increasing (symbolic positive increments), alternating between two symbolic values, or free, each along the comparison path of 1 (quick) / 3 (thorough) pseudo-random samples of the symbolic parameters (concolic: the verdict covers every input following that path), k = 2N+3 (capped at N+40); last() called 0..2 times between updates in a VERIF_SEED-chosen pattern; 30 / 150 seeded two-level chains at N in {1,2}; positive inputs for Drawdown/LnReturn, non-zero divisor for Divide; this binary is built with debug assertions and overflow checks ON, and the same units are re-run by the release build (both OFF, wrapping usize)",
+        bounds: "fully symbolic inputs, all comparison outcomes: N in {1,2,3} (quick) / {1..5} (thorough), k = 2N+3 (<= 7 for heavily branching views); N in {8,64} (quick) / {8,16,32,64}, and free / increasing streams at every N in {4,5,6,7,9,10,12,16,17,31,32,33} (quick; thorough up to 128): streams that are constant, strictly increasing (symbolic positive increments), alternating between two symbolic values, or free, each along the comparison path of 1 (quick) / 3 (thorough) pseudo-random samples of the symbolic parameters (concolic: the verdict covers every input following that path), k = 2N+3 (capped at N+40); last() called 0..2 times between updates in a VERIF_SEED-chosen pattern; 30 / 150 seeded two-level chains at N in {1,2}; positive inputs for Drawdown/LnReturn, non-zero divisor for Divide; this binary is built with debug assertions and overflow checks ON, and the same units are re-run by the release build (both OFF, wrapping usize); strictly decreasing streams added to every sampled-path list; runs of 2100 updates, strictly increasing and strictly decreasing, at N=1 (every view but the nonlinear ones) and N=3 (Min, Max, Sma, Cumulative, Roc, BinaryEntropy, Alma, Ema)",
         outside: vec!["window lengths above 64 and between the listed ones", "f64-specific panics (the crate's finiteness debug_assert! firing on rounding residue, overflow to Inf): see kani/ (engine K)", "chains deeper than two"],
         assumptions: vec!["inputs are reals (finite by construction); a division by a value that can be exactly zero yields the IEEE special, so the crate's own is_finite() assertions see it"],
     }
